@@ -108,30 +108,26 @@ Theorem C11_nonvacuous :
 Proof. exact nonvacuous. Qed.
 Print Assumptions C11_nonvacuous.
 
-(** The semantic core of the transparency proof, for all histories: if, among the look-ups of a history,
-    what a request makes of a result stored by a request with the same key is
-    what a fresh evaluation of it yields, then every outcome with the cache equals
-    the outcome without it — for all histories, instances, requests and iteration orders *)
-Theorem C11_cache_transparent_if_compatible : forall fx H w (h : list step),
-  (forall a b k r, In a h -> In b h ->
-     cache_key fx H (st_ho a) (st_vo a) (st_inst a) (st_req a) = Some k ->
-     cache_key fx H (st_ho b) (st_vo b) (st_inst b) (st_req b) = Some k ->
-     fst (exec_fresh w (st_inst a) (st_req a)) = OAllow r ->
-     recheck fx (st_inst b) r = fst (exec_fresh w (st_inst b) (st_req b))) ->
-  map sr_out (run_cached fx H w [] h) = map fst (run_fresh w h).
-Proof. exact cache_transparent_steps. Qed.
-Print Assumptions C11_cache_transparent_if_compatible.
+(** … and by a history that mixes three kinds of mechanisms on one cache
+    (remote authorizer, introspection with a scope requirement, generic
+    authenticator asserting the session lifespan) with subjects, tokens and
+    header values of different lengths — the exact guard of C11-F4 does not
+    fire on it, for every collision-free hash of 32 bytes *)
+Theorem C11_nonvacuous_mixed :
+  wf_history mixed_history /\
+  (forall fx H, g_F2 fx H mixed_history = false /\ g_F3 fx H mixed_history = false /\ g_F10 fx H mixed_history = false /\
+                g_F6 fx H mixed_history = false /\ g_F7 fx H mixed_history = false) /\
+  (forall fx H, (forall a b, H a = H b -> a = b) -> (forall x, String.length (H x) = 32) -> g_F4 fx H mixed_history = false) /\
+  (exists a b, nth_error mixed_history 1 = Some a /\ nth_error mixed_history 4 = Some b /\ same_request a b = true /\
+               enabled (st_inst a) = true /\ i_kind (st_inst a) = KIntro /\
+               exists r, fresh_of w_world a = OAllow r) /\
+  (exists c r, nth_error mixed_history 2 = Some c /\ i_kind (st_inst c) = KGen /\ fresh_of w_world c = OAllow r).
+Proof. exact nonvacuous_mixed. Qed.
+Print Assumptions C11_nonvacuous_mixed.
 
-(** … and only then: two look-ups that share a key although the second makes of
-    the first's result something else than its own fresh evaluation change a decision *)
-Theorem C11_shared_key_changes_decision : forall fx H w a b k r,
-  cache_key fx H (st_ho a) (st_vo a) (st_inst a) (st_req a) = Some k ->
-  cache_key fx H (st_ho b) (st_vo b) (st_inst b) (st_req b) = Some k ->
-  fst (exec_fresh w (st_inst a) (st_req a)) = OAllow r ->
-  recheck fx (st_inst b) r <> fst (exec_fresh w (st_inst b) (st_req b)) ->
-  map sr_out (run_cached fx H w [] [a; b]) <> map fst (run_fresh w [a; b]).
-Proof. exact not_transparent_steps. Qed.
-Print Assumptions C11_shared_key_changes_decision.
+(* The abstract memo-table lemmas [cache_transparent_steps] and [not_transparent_steps]
+   (C11/Proofs.v) restate the definition of the model's [exec_cached]; they are
+   lemmas of the proofs above and no longer listed as theorems about the code. *)
 
 (** Identical requests hit: in every history (any cache state [c], any steps
     before and between), a request identical to an earlier one that a fresh
